@@ -241,5 +241,8 @@ func init() {
 			cfg.W = map[string]int{"sub": 22, "unsub": 8, "get": 8, "call": 6, "callres": 6, "new": 2, "auth": 2, "change": 8, "add": 4, "remove": 3, "custom": 5, "reaccess": 3, "token": 3, "disconnect": 10, "answer": 8, "quiesce": 2}
 			return cfg
 		})
+		if !c.Race {
+			c11HTTPAbort(c)
+		}
 	})
 }
